@@ -112,6 +112,10 @@ func (r *responseWriter) Flush() {
 }
 
 func (r *responseWriter) Close() (err error) {
+	if nil == r.writer {
+		// already closed (e.g. the handler called Flush and the adapter flushes again when it returns)
+		return nil
+	}
 
 	if nil != r.chunkWriter {
 		err = r.chunkWriter.Close()
